@@ -424,3 +424,59 @@ Example C04_nonvacuous :
          (fun k : N => if k =? 3 then None else Some (k * 16)) nil [1; 2; 1; 3; 4; 1]) =
     [PageCacheAbs.ROk 16; PageCacheAbs.ROk 32; PageCacheAbs.ROk 16; PageCacheAbs.RErr; PageCacheAbs.ROk 64; PageCacheAbs.ROk 16].
 Proof. split; [exact fcache_nonvacuous | exact instance_run]. Qed.
+
+(* ===== begin: C04 over C06's model of cache.c (added by the cache agent; append-only block) ===== *)
+From KdV Require Cache.CacheList Cache.CacheRing Cache.CacheAsPageCache.
+
+(** [C04_pagecache_transparent] instantiated with the faithful list-level model
+    of cache.c ([Cache/CacheList.v], repaired reclaim_data; instance in
+    [Cache/CacheAsPageCache.v]: state = cache state x contents of the data
+    buffers, [pc_get] = cache_get_entry + cache_entry_valid, [pc_insert] =
+    write the buffer then cache_insert, [pc_discard] = cache_discard, [pc_put]
+    = cache_put_entry; the relational form of the interface,
+    [PageCacheAbs.pagecache_never_busy], is used).  For every capacity >= 1,
+    every pure [fill] and every sequence of keys read by the single-threaded
+    reader of read.c (get; on a miss fill and insert, or discard when the fill
+    fails; use; put) each read returns [fill k] -- never BUSY, since no
+    reference is outstanding between two reads -- independent of everything
+    read before. *)
+Theorem C04_pagecache_transparent_C06 :
+  forall (D : Type) (fill : N -> option D) (cap : nat) (ks : list N), (0 < cap)%nat ->
+    Forall2 (fun (k : N) (r : PageCacheAbs.rd D) => r = pure_answer N D fill k) ks
+      (fst (PageCacheAbs.run (CacheAsPageCache.pc D) nat N D
+              (CacheAsPageCache.pc_get D) (CacheAsPageCache.pc_insert D)
+              (CacheAsPageCache.pc_discard D) (CacheAsPageCache.pc_put D) fill
+              (CacheAsPageCache.pc_init D cap) ks)).
+Proof. exact CacheAsPageCache.pagecache_transparent_C06. Qed.
+Print Assumptions C04_pagecache_transparent_C06.
+
+(** the same for the pointer-level model of cache.c ([Cache/CacheRing.v]:
+    next/prev arrays, split, counters, in-flight head), through the ring
+    refinement of C06 *)
+Theorem C04_pagecache_transparent_C06_ring :
+  forall (D : Type) (fill : N -> option D) (cap : nat) (ks : list N), (0 < cap)%nat ->
+    Forall2 (fun (k : N) (r : PageCacheAbs.rd D) => r = pure_answer N D fill k) ks
+      (fst (PageCacheAbs.run (CacheAsPageCache.rpc D) nat N D
+              (CacheAsPageCache.rpc_get D) (CacheAsPageCache.rpc_insert D)
+              (CacheAsPageCache.rpc_discard D) (CacheAsPageCache.rpc_put D) fill
+              (CacheAsPageCache.rpc_init D cap) ks)).
+Proof. exact CacheAsPageCache.pagecache_transparent_C06_ring. Qed.
+Print Assumptions C04_pagecache_transparent_C06_ring.
+
+(** non-vacuity: capacity 2, keys 1 2 1 3 4 1 2 with key 3 unreadable, on both models *)
+Example C04_pagecache_C06_run :
+  let fill := fun k : N => if (k =? 3)%N then None else Some (k * 16)%N in
+  fst (PageCacheAbs.run (CacheAsPageCache.pc N) nat N N
+         (CacheAsPageCache.pc_get N) (CacheAsPageCache.pc_insert N)
+         (CacheAsPageCache.pc_discard N) (CacheAsPageCache.pc_put N) fill
+         (CacheAsPageCache.pc_init N 2) [1; 2; 1; 3; 4; 1; 2]%N) =
+    [PageCacheAbs.ROk 16; PageCacheAbs.ROk 32; PageCacheAbs.ROk 16; PageCacheAbs.RErr;
+     PageCacheAbs.ROk 64; PageCacheAbs.ROk 16; PageCacheAbs.ROk 32]%N /\
+  fst (PageCacheAbs.run (CacheAsPageCache.rpc N) nat N N
+         (CacheAsPageCache.rpc_get N) (CacheAsPageCache.rpc_insert N)
+         (CacheAsPageCache.rpc_discard N) (CacheAsPageCache.rpc_put N) fill
+         (CacheAsPageCache.rpc_init N 2) [1; 2; 1; 3; 4; 1; 2]%N) =
+    [PageCacheAbs.ROk 16; PageCacheAbs.ROk 32; PageCacheAbs.ROk 16; PageCacheAbs.RErr;
+     PageCacheAbs.ROk 64; PageCacheAbs.ROk 16; PageCacheAbs.ROk 32]%N.
+Proof. split; vm_compute; reflexivity. Qed.
+(* ===== end: C04 over C06's model of cache.c ===== *)
